@@ -483,9 +483,10 @@ fn apply_inject(inj: &Inject, shared: &Parsers, scratch: &mut Vec<VM>, viols: &m
                 let junk: Vec<Vec<u8>> = (0..2).map(|_| vec![0xAAu8; MB]).collect();
                 assert_eq!(junk[1][777], 0xAA);
             }
-            let vm = VM::new();
+            // both public ways of making a machine
+            let (vm, how) = if st.creates % 2 == 1 { (VM::new(), "VM::new()") } else { (VM::default(), "VM::default()") };
             if let Err(what) = pristine(&vm) {
-                viols.push(Violation::new("C19:vm_not_pristine", format!("a new machine starts with {}", what)));
+                viols.push(Violation::new("C19:vm_not_pristine", format!("a new machine ({}) starts with {}", how, what)));
             }
             scratch.push(vm);
         }
